@@ -155,6 +155,9 @@ def check_routes(spec, ctx):
 def strat_routes(draw):
     fs = draw(gg.splinefunc())
     grid = draw(gg.grid_for(fs))
+    if draw(st.integers(0, 2)) == 0:
+        # grid axes need not be ascending: any 1D vectors describe a tensor grid
+        grid = [list(draw(st.permutations(g))) for g in grid]
     pts = draw(gg.points_for(fs, 2, 4))
     return {"func": fs, "grid": grid, "points": pts}
 
